@@ -5,7 +5,8 @@ Structured: a history is `new <n> <func|fd|both|none> <late|early>` followed by 
 the fill level the buffer should have (exactly, from the byte counts of every call) and aims most writes at the
 boundaries: a write that ends one byte before / exactly at / one byte past the end of the buffer, n-1, n, n+1, 2n,
 2n+1 bytes, the 63/64/65-byte edge of write_vstrf's stack buffer (title = 6 bytes of framing), zero-length and
-`len == 0` writes (which print nothing), embedded NULs.  Payload bytes are a running counter so that a lost, duplicated or reordered byte
+`len == 0` writes (which print nothing), embedded NULs.  A share of the histories (`big_history`) uses buffers above
+PIPE_BUF (4097 … 40000) and lets more than 4096 bytes accumulate before the flush points.  Payload bytes are a running counter so that a lost, duplicated or reordered byte
 changes the stream.  tier exhaustive: every history of <= 3 writes of length <= 8 with every flush placement, for
 every buffer size <= 6, both output methods.
 Prints one JSON line: the input distribution actually produced."""
@@ -32,7 +33,7 @@ class Hist:
         self.n, self.how, self.cur, self.ctr = n, how, 0, rng.randrange(1, 250)
         self.alt, self.vis, self.started = False, True, how != "none"
         self.ops = ["new %d %s %s" % (n, how, order)]
-        sizes_seen[n if n <= 70 else ">70"] += 1
+        sizes_seen[n if n <= 70 else (">70" if n <= 4096 else n)] += 1
         dist["new_" + how + "_" + order] += 1
 
     def payload(self, k, nul=False):
@@ -70,7 +71,7 @@ class Hist:
 
     def op_write(self, k=None, quirk=None):
         k = self.aimed_len() if k is None else k
-        k = min(k, 9000)
+        k = min(k, 9000 if self.n <= 4096 else 100000)
         r = rng.random() if quirk is None else (0.0 if quirk else 0.5)
         if r < 0.07:
             # len == 0 with k bytes at the pointer: prints nothing since 6b09beb (before: strlen(mem) bytes)
@@ -178,6 +179,41 @@ def pick_size():
     return rng.choice([100, 512, 4096])
 
 
+BIG_SIZES = [4097, 4098, 8191, 8192, 8193, 12288, 16384, 40000]
+
+
+def big_history():
+    """buffers larger than PIPE_BUF (4096) that really fill up: more than 4096 bytes are pending at the flush points,
+    on the descriptor and on the function configuration alike"""
+    how = rng.choices(["fd", "func", "both"], [50, 40, 10])[0]
+    n = rng.choice(BIG_SIZES)
+    h = Hist(n, how, rng.choices(["late", "early"], [70, 30])[0])
+    dist["big_history"] += 1
+    for _ in range(rng.randint(2, 6)):
+        c = rng.random()
+        space = h.n - h.cur
+        if c < 0.55:
+            # leave more than PIPE_BUF pending: up to 1 byte short of the buffer end
+            lo = max(1, 4097 - h.cur)
+            k = rng.choice([space - 1, space - 1, max(lo, space - rng.randint(2, 40)), max(lo, min(space - 1, rng.randint(lo, lo + 5000)))])
+            h.op_write(max(1, k), quirk=False)
+        elif c < 0.80:
+            h.op_write(rng.choice([space, space + 1, space + 4096, space + 4097, space + h.n - 1, space + h.n, h.n + 4097]), quirk=False)
+        elif c < 0.90:
+            h.op_title()
+        else:
+            h.op_pause()
+        if h.cur > 4096:
+            dist["more_than_PIPE_BUF_pending"] += 1
+        if rng.random() < 0.6:
+            h.op_flush()
+    c = rng.random()
+    if c < 0.4: h.op_flush()
+    elif c < 0.7: h.op_teardown(); h.op_destroy()
+    else: h.op_destroy()
+    h.emit()
+
+
 def random_history():
     how = rng.choices(["func", "fd", "both", "none"], [50, 35, 10, 5])[0]
     h = Hist(pick_size(), how, rng.choices(["late", "early"], [60, 40])[0])
@@ -224,8 +260,10 @@ if a.tier == "exhaustive":
     bound = "every history of <= 3 writes of length 0..8 x every flush placement x buffer sizes 0..6 x {func, fd}"
 else:
     nh = 700 if a.tier == "quick" else 4000
-    for _ in range(nh):
-        random_history()
+    nbig = 40 if a.tier == "quick" else 150
+    for i in range(nh):
+        if i % (nh // nbig) == 0: big_history()
+        else: random_history()
     bound = None
 open(a.out, "w").write("\n".join(lines) + "\n")
 print(json.dumps({"ops": len(lines), "histories": nh, "mix": dict(sorted(dist.items())),
